@@ -26,7 +26,7 @@ meta={"seed":name,"breaks_property":prop,"description":am.get("description",""),
  "tests_with_change":tests,"failed_tests_with_change":failed,
  "demo_exit_unmodified":int(brc),"demo_exit_with_change":int(mrc),"demo_output_with_change":mdemo,
  "confirmed": ("2477 passed" in tests and "2 failed" in tests and int(brc)==0 and int(mrc)!=0),
- "round": 2,
+ "round": int(__import__("os").environ.get("SEED_ROUND","2")),
  "ran":"in the scratch worktree: demo.py on the unmodified tree; git apply patch.diff; full pytest; demo.py; git checkout"}
 json.dump(meta,open(f"/verif/seeded/{name}/meta.json","w"),indent=1)
 print(name, "confirmed" if meta["confirmed"] else "NOT CONFIRMED", tests, brc, mrc)
